@@ -1039,20 +1039,17 @@ def _dedupe(findings):
     return out
 
 
-# What the dispatch tables of the pinned tree say (written down: the adapter above looks classes up in the live tables,
-# and an oracle that asks the code under test which class to expect follows it when a table loses or swaps an entry)
+# The names the dispatch tables of the pinned tree know (written down: the adapter above looks classes up in the live
+# tables, and an oracle that asks the code under test what to expect follows it when a table loses an entry - the
+# vendor or option is then silently handled as "unknown").  Only the presence of the names is pinned, not the class
+# names behind them: a renamed class is not a deviation.
 PINNED_TABLES = {
-    'vendors': {'cryptlib': 'SshSoftwareVersionCryptlib', 'dropbear': 'SshSoftwareVersionDropbear',
-                'IPSSH': 'SshSoftwareVersionIPSSH', 'Monaca': 'SshSoftwareVersionMonacaSSH',
-                'OpenSSH': 'SshSoftwareVersionOpenSSH'},
-    'critical': {'force-command': 'SshCertExtensionForceCommand', 'source-address': 'SshCertExtensionSourceAddress'},
-    'extensions': {'no-presence-required': 'SshCertExtensionNoPrecenseRequired',
-                   'permit-X11-forwarding': 'SshCertExtensionPermitX11Forwarding',
-                   'permit-agent-forwarding': 'SshCertExtensionPermitAgentForwarding',
-                   'permit-port-forwarding': 'SshCertExtensionPermitPortForwarding',
-                   'permit-pty': 'SshCertExtensionPermitPTY', 'permit-user-rc': 'SshCertExtensionPermitUserRC'},
+    'vendors': ('cryptlib', 'dropbear', 'IPSSH', 'Monaca', 'OpenSSH'),
+    'critical': ('force-command', 'source-address'),
+    'extensions': ('no-presence-required', 'permit-X11-forwarding', 'permit-agent-forwarding', 'permit-port-forwarding',
+                   'permit-pty', 'permit-user-rc'),
 }
-PINNED_TABLES['constraints'] = dict(PINNED_TABLES['extensions'], **PINNED_TABLES['critical'])
+PINNED_TABLES['constraints'] = PINNED_TABLES['extensions'] + PINNED_TABLES['critical']
 
 
 def _check_tables(_case):
@@ -1060,11 +1057,10 @@ def _check_tables(_case):
     live = dict(L.option_tables, vendors=L.vendors)
     findings = []
     for table, pinned in sorted(PINNED_TABLES.items()):
-        for name, class_name in sorted(pinned.items()):
-            got = live[table].get(name)
-            if got is None or got.__name__ != class_name:
-                findings.append(Finding('wrong-type/%s' % class_name, {
-                    'table': table, 'name': name, 'dispatches_to': getattr(got, '__name__', None)}))
+        for name in pinned:
+            if live[table].get(name) is None:
+                findings.append(Finding('wrong-type/%s:%s' % (table, name), {
+                    'table': table, 'name': name, 'what': 'no class is dispatched to for this name any more'}))
     return findings
 
 
